@@ -11,6 +11,7 @@ S4 the encoder's inversion decision is the parity of the number of inversions of
 S5 has_out_ring_bond means "the atom carries a ring bond": flag set for both ends where ring bonds are inserted and
    nowhere else, or any() over all out-bonds
 S6 the parser gives each end of a ring-closure bond the mark written on its own ring digit
+S7 the parsed graph whose chirality tags the encoder flips in place is owned by the call (not memoised / retained)
 Not decided: that the permutation handed to the parity test is the one the decoder's ring-first placement induces (the
 three-way partition and its sort key) -- a value-level combinatorial fact, DESIGN.md §4 C04.
 """
@@ -243,6 +244,11 @@ def run(ctx, rep):
     chiral.check_parity(ctx, rep, "S4")
     chiral.check_ring_flag(ctx, rep, "S5")
     chiral.check_ring_closure_marks(ctx, rep, "S6")
+    # S7: the encoder flips chirality tags in place on the parsed graph: that graph must be the call's own (a memoised or
+    # otherwise retained parse would be flipped again by the next encoding of the same string)
+    from sa.effects import Effects
+    from rules.shared import check_fresh_return
+    check_fresh_return(ctx, Effects(ctx), rep, ctx.fn("selfies.utils.smiles_utils.smiles_to_mol"), "S7", "smiles_to_mol")
 
 
 def _flatten(eng, v):
